@@ -470,8 +470,11 @@ pub fn run(rep: &Report) -> i32 {
                                             let entry = v["entry"].as_str().unwrap_or("").to_string();
                                             let site = v["site"].as_str().unwrap_or("").to_string();
                                             rep.class("panic");
+                                            // D6 seen as a caught panic instead of an abort: `Vec` refuses a capacity above
+                                            // isize::MAX before the allocator is even asked (sizes >= 2^59 or so)
+                                            let huge = has_huge_number(v["text"].as_str().unwrap_or("")) && v["panic"].as_str().unwrap_or("").contains("capacity overflow");
                                             rep.violation(
-                                                format!("C06:panic:{entry}:{site}"),
+                                                if huge { "C06:panic:huge-size-literal:capacity-overflow".to_string() } else { format!("C06:panic:{entry}:{site}") },
                                                 format!("{entry} panicked: {}", v["panic"].as_str().unwrap_or("")),
                                                 json!({"kind": "text", "entry": entry, "text": v["text"], "ty": v["ty"], "expect": "", "observed": "panic"}),
                                             );
